@@ -439,7 +439,9 @@ def light_cases(w, be, deg):
     return out
 
 
-def c07_cases(seed, w, be, deg, tier, tu, profile="full"):
+def c07_cases(seed, w, be, deg, tier, tu, profile="full", given=None):
+    if profile == "given":
+        return list(given)
     rng = random.Random("c07/%d/%d/%d/%d/%s/%d" % (seed, w, be, deg, tier, tu))
     g = Gen(rng, w, be, deg)
     if profile == "full":
@@ -471,9 +473,11 @@ def part_ns(pt):
     return "d%dm%d" % (pt["deg"], pt["nmod"])
 
 
-def emit_c07(seed, w, be_name, deg, nmod, tier, tu=0, parts=None):
+def emit_c07(seed, w, be_name, deg, nmod, tier, tu=0, parts=None, op="asg"):
     """one translation unit; `parts` = [{deg, nmod, profile}] (default: the single full part (deg, nmod)), one namespace
-    and one Env instantiation per part; case functions are numbered across the parts"""
+    and one Env instantiation per part; case functions are numbered across the parts.  A part with profile "given" carries
+    its own case list (`cases`); `op` = "asgx" makes the runtime print the statements as `asgx` lines (shapes outside the
+    acceptance rules of `analyze`: checked against the coefficient-wise meaning only, see harness/expr_rt.hpp)"""
     be = BE_CODE[be_name]
     parts = parts or [dict(deg=deg, nmod=nmod, profile="full")]
     L = ['// GENERATED by tools/gen_expr.py (C07) seed=%d limb=%d backend=%s parts=%s tier=%s tu=%d' % (
@@ -481,7 +485,7 @@ def emit_c07(seed, w, be_name, deg, nmod, tier, tu=0, parts=None):
          '#include "expr_rt.hpp"', 'using T = %s;' % LIMB_T[w], 'using nfl::shoup; using nfl::compute_shoup;', '']
     spans, allcases, k0 = [], [], 0
     for pi, pt in enumerate(parts):
-        cases = c07_cases(seed, w, be, pt["deg"], tier, tu, pt["profile"])
+        cases = c07_cases(seed, w, be, pt["deg"], tier, tu, pt["profile"], pt.get("cases"))
         L.append("namespace %s {" % part_ns(pt))
         L.append('using E = xr::Env<T, %d, %d, %d, %d>;' % (pt["deg"], pt["nmod"], NV, NQ))
         for j, (t, prep, d, form, m) in enumerate(cases):
@@ -489,14 +493,14 @@ def emit_c07(seed, w, be_name, deg, nmod, tier, tu=0, parts=None):
             start = len(L) + 1
             tc = code(t)
             ex = cxx(t)
-            L.append("// case %d: %s  [form %d, predicted mode %d]" % (k, ex.replace("e.", ""), form, m))
+            L.append("// case %d: %s  [form %d, predicted mode %s]" % (k, ex.replace("e.", ""), form, m))
             L.append("static void case_%d(E& e, int reps) {" % k)
             L.append("  static const int tree[] = {%s};" % ", ".join(map(str, tc)))
             L.append("  for (int rep = 0; rep < reps; rep++) {")
             L.append("    e.fill(rep);")
             for p in prep:
                 L.append("    " + p)
-            L.append("    const int mode = decltype(%s)::simd_mode::mode;" % ex)
+            L.append(("    const int mode = decltype(%s)::simd_mode::mode;" if op == "asg" else "    const int mode = xr::mode_of_type<decltype(%s)>::value;") % ex)
             if form == 0:
                 L.append("    e.begin(tree, %d, %d, 0);" % (len(tc), handle(d)))
                 L.append("    %s = %s;" % (cxx(d), ex))
@@ -524,6 +528,8 @@ def emit_c07(seed, w, be_name, deg, nmod, tier, tu=0, parts=None):
         L.append("static void run_all(uint64_t seed) {")
         L.append("  E* env = new E(seed);")
         L.append("  E& e = *env;")
+        if op != "asg":
+            L.append('  e.asg_op = "%s"; e.mode_in_args = true;' % op)
         L.append("  int reps = vh::thorough() ? 4 : 3;")
         for j in range(len(cases)):
             L.append("  case_%d(e, reps);" % (k0 + j))
@@ -673,8 +679,10 @@ FIXED_F1 = """
 """
 
 
-def emit_c08(seed, w, be_name, deg, nmod, tier, parts=None):
-    """one translation unit; `parts` = [{deg, nmod, profile}] as in emit_c07; shape functions are numbered across the parts"""
+def emit_c08(seed, w, be_name, deg, nmod, tier, parts=None, xmode=False):
+    """one translation unit; `parts` = [{deg, nmod, profile}] as in emit_c07; shape functions are numbered across the parts.
+    A part with profile "given" carries its own shape list (`shapes`: tuples as c08_shapes returns) and no fixed section;
+    `xmode`: the conversions are printed as `eboolx` lines (shapes outside the acceptance rules, see harness/expr_rt.hpp)"""
     be = BE_CODE[be_name]
     parts = parts or [dict(deg=deg, nmod=nmod, profile="full")]
     L = ['// GENERATED by tools/gen_expr.py (C08) seed=%d limb=%d backend=%s parts=%s tier=%s' % (
@@ -682,8 +690,9 @@ def emit_c08(seed, w, be_name, deg, nmod, tier, parts=None):
          '#include "expr_rt.hpp"', 'using T = %s;' % LIMB_T[w], 'using nfl::shoup; using nfl::compute_shoup;', '']
     spans, allshapes, k0 = [], [], 0
     for pi, pt in enumerate(parts):
-        pdeg, full = pt["deg"], pt["profile"] == "full"
-        shapes = c08_shapes(seed, w, be, pdeg, tier, pt["profile"])
+        pdeg, full = pt["deg"], (pt["profile"] == "full" or bool(pt.get("full")))
+        given = pt["profile"] == "given"
+        shapes = list(pt["shapes"]) if given else c08_shapes(seed, w, be, pdeg, tier, pt["profile"])
         L.append("namespace %s {" % part_ns(pt))
         L.append('using E = xr::Env<T, %d, %d, %d, %d>;' % (pdeg, pt["nmod"], NV, NQ))
         for j, (root, tree, t, target, prep, m) in enumerate(shapes):
@@ -693,14 +702,18 @@ def emit_c08(seed, w, be_name, deg, nmod, tier, parts=None):
             ex = cxx(tree)
             both_q = root != "bool" and tree[1][0] == "Q" and tree[2][0] == "Q"
             leaf_only = root != "bool" and tree[1][0] in "PQ" and tree[2][0] in "PQ"
-            L.append("// shape %d: bool(%s)  [predicted mode %d]" % (k, ex.replace("e.", ""), m))
+            L.append("// shape %d: bool(%s)  [predicted mode %s]" % (k, ex.replace("e.", ""), m))
             L.append("static void shape_%d(E& e) {" % k)
             L.append("  static const int tree[] = {%s};" % ", ".join(map(str, tc)))
             L.append("  auto target = [&](size_t cm, size_t i) -> T { return %s; };" % target)
             L.append("  auto prep = [&]() { %s };" % " ".join(prep))
-            if both_q:
+            if both_q and not xmode:
                 L.append("  xr::BoolCase bc{1, tree, %d, 0, %d, %d};" % (len(tc), handle(tree[1]), handle(tree[2])))
                 L.append("  auto ev = [&]() -> bool { bool r = %s; return r; };" % ex)
+            elif xmode:
+                L.append("  const int mode = xr::mode_of_type<decltype(%s)>::value;" % ex)
+                L.append("  xr::BoolCase bc{0, tree, %d, mode, 0, 0};" % len(tc))
+                L.append("  auto ev = [&]() -> bool { return bool(%s); };" % ex)
             else:
                 L.append("  const int mode = decltype(%s)::simd_mode::mode;" % ex if not (root != "bool" and tree[1][0] == "Q")
                          else "  const int mode = decltype(%s)::simd_mode::mode;" % cxx((root, ("P", 0), tree[2])))
@@ -726,7 +739,10 @@ def emit_c08(seed, w, be_name, deg, nmod, tier, parts=None):
         L.append("  E* env = new E(seed);")
         L.append("  E& e = *env;")
         L.append("  e.light = %s;" % ("false" if full else "true"))
-        L.append("  fixed(e);")
+        if xmode:
+            L.append("  e.xmode = true;")
+        if not given:
+            L.append("  fixed(e);")
         for j in range(len(shapes)):
             L.append("  shape_%d(e);" % (k0 + j))
         L.append("  delete env;")
@@ -754,14 +770,15 @@ def probe_source(w, deg, nmod, t, as_bool):
 
 
 def probes(seed, w, be_name, deg, n_acc, n_rej):
-    """single-expression sources: [(predicted_ok, reason/mode, tree text, source)]"""
+    """single-expression sources: [(predicted_ok, reason/mode, tree text, source, info)]; info = dict(tree, ...) for the
+    predicted-rejected ones (executed by tools/exprcheck.py when the compiler accepts them after all)"""
     be = BE_CODE[be_name]
     rng = random.Random("probe/%d/%d/%d/%d" % (seed, w, be, deg))
     g = Gen(rng, w, be, deg)
     out = []
     for _ in range(n_acc):
         t, prep, m = g.random_case(4)
-        out.append((True, m, cxx(t), probe_source(w, deg, 1, t, False)))
+        out.append((True, m, cxx(t), probe_source(w, deg, 1, t, False), None))
     tries = 0
     fixed_rej = [("mul", ("add", P(0), P(1)), P(2)), ("add", P(0), Q(0)), ("shoup", P(0), P(1)), ("cshoup", ("add", P(0), P(1))),
                  ("shoup", ("mul", Q(0), ("mul", P(0), P(1))), P(2)), ("add", ("sub", P(0), P(1)), ("shoup", ("mul", P(2), P(1)), P(3)))]
@@ -774,7 +791,7 @@ def probes(seed, w, be_name, deg, n_acc, n_rej):
             continue
         ok, why = compiles(t, w, be, deg)
         if not ok:
-            out.append((False, why, cxx(t), probe_source(w, deg, 1, t, False)))
+            out.append((False, why, cxx(t), probe_source(w, deg, 1, t, False), dict(key=None, tree=t, prep=None, as_bool=False)))
     return out
 
 
@@ -798,8 +815,188 @@ def degree_probes(seed, w, be_name, tier):
         ok, why = compiles(t, w, be, d, as_bool=as_bool)
         if want[ok] > 0:
             want[ok] -= 1
-            out.append((ok, "degree %d: %s" % (d, why), ("bool(%s)" if as_bool else "%s") % cxx(t) + " at degree %d" % d, probe_source(w, d, 1, t, as_bool)))
+            out.append((ok, "degree %d: %s" % (d, why), ("bool(%s)" if as_bool else "%s") % cxx(t) + " at degree %d" % d, probe_source(w, d, 1, t, as_bool), None))
     return out
+
+
+# ------------------------------------------------------------------------------------------ shape families
+# The claim of C07 covers "any arithmetic expression the library accepts at compile time"; the case generators above only
+# produce what `analyze` predicts to be accepted.  The other side of that border is enumerated here, systematically:
+# every root kind x every operand kind in every operand position.  tools/exprcheck.py compiles a representative of each
+# family the predictor REJECTS (-fsyntax-only) and, when the compiler accepts one (a library change made a new shape
+# compile: it is inside the claim from then on), EXECUTES it (`family_exec_cases`) against the exact meaning.
+#
+# operand kinds:  P  plain polynomial          Q  shared handle (poly_p)
+#                 Ea sum / difference of two polynomials (the backend's own mode)
+#                 Em product of two polynomials (serial mode in every build)
+#                 Ef fused product shoup(a*b, b') with a precomputed quotient (sse mode in the vector builds)
+# root kinds:     add | sub | mul (x, y)            cshoup (x)
+#                 fused (x, y, q) = shoup(x * y, q)   q: P / Q = a holder set to the quotient of y,  C = compute_shoup(y) inline
+#                 shoupgen (x, q) = shoup(x, q) with x not a product
+#                 eq | neq (x, y)                   (boolean conversion; C08)
+OPK = ("P", "Q", "Ea", "Em", "Ef")
+FAM_QUOT_EF = ("P", 4)        # v4 := quotient of v1, shared by the fused operands
+FAM_ROOT_HOLD = {"P": ("P", 5), "Q": ("Q", 2)}
+
+
+def set_quot_stmt(h, b):
+    return "e.set_quot(%d, [&](size_t cm, size_t i) -> T { return %s; });" % (handle(h), ref(b))
+
+
+def fam_operand(kind, pos, var=0):
+    """(tree, prep) of an operand of kind `kind` in operand position `pos` (0 | 1); `var` varies the representative"""
+    a, b = (P(0), P(1)) if pos == 0 else (P(2), P(3))
+    if kind == "P":
+        return a, []
+    if kind == "Q":
+        return Q(pos), []
+    if kind == "Ea":
+        return (("add", "sub")[(var + pos) % 2], a, b), []
+    if kind == "Em":
+        return ("mul", Q(0), Q(1)) if (var // 2 + pos) % 3 == 2 else ("mul", a, b), []
+    if kind == "Ef":
+        return ("shoup", ("mul", a, P(1)), FAM_QUOT_EF), [set_quot_stmt(FAM_QUOT_EF, P(1))]
+    raise ValueError(kind)
+
+
+def family_tree(key, var=0):
+    """(tree, prep, as_bool) of the representative `var` of family `key` = (root, operand kinds...)"""
+    root = key[0]
+    if root in ("add", "sub", "mul", "eq", "neq"):
+        (x, px), (y, py) = fam_operand(key[1], 0, var), fam_operand(key[2], 1, var)
+        return (root, x, y), px + [s for s in py if s not in px], root in ("eq", "neq")
+    if root == "cshoup":
+        x, px = fam_operand(key[1], 0, var)
+        return ("cshoup", x), px, False
+    if root == "fused":
+        (x, px), (y, py) = fam_operand(key[1], 0, var), fam_operand(key[2], 1, var)
+        prep = px + [s for s in py if s not in px]
+        if key[3] == "C":
+            q = ("cshoup", y)
+        else:
+            q = FAM_ROOT_HOLD[key[3]]
+            prep = prep + [set_quot_stmt(q, y)]
+        return ("shoup", ("mul", x, y), q), prep, False
+    if root == "shoupgen":
+        x, px = fam_operand(key[1], 0, var)
+        return ("shoup", x, FAM_ROOT_HOLD[key[2]]), px, False
+    raise ValueError(root)
+
+
+def family_keys(cmp_roots=False):
+    keys = [(r, x, y) for r in ("add", "sub", "mul") for x in OPK for y in OPK]
+    keys += [("cshoup", x) for x in OPK]
+    keys += [("fused", x, y, q) for x in OPK for y in OPK for q in ("P", "Q", "C")]
+    keys += [("shoupgen", x, q) for x in ("P", "Q", "Ea", "Ef") for q in ("P", "Q")]
+    if cmp_roots:
+        keys += [(r, x, y) for r in ("eq", "neq") for x in OPK for y in OPK]
+    return keys
+
+
+def fam_name(key):
+    return "%s(%s)" % (key[0], ",".join(key[1:]))
+
+
+def handle_fused(key):
+    """a fused product with a shared handle among the factors of its product (and not handles only)"""
+    return key[0] == "fused" and "Q" in key[1:3] and key[1:3] != ("Q", "Q")
+
+
+def family_probes(seed, w, be_name, tier, roots="arith", everything=False):
+    """[(predicted_ok, reason/mode, text, source, info)]: one single-statement source per selected family;
+    roots = "arith" (assignments; C07) | "cmp" (boolean conversions of == / != roots; C08).
+    thorough (or `everything`): every family the predictor rejects + a rotating eighth of the accepted ones;
+    quick: of the rejected families, arith: every fused product with a handle factor next to a sub-expression or a polynomial
+    (both factor positions, every kind of the other factor; the kind of the quotient operand rotates with the seed)
+    and a rotating subset of the others; cmp: a comparison with a handle operand per root (rotating) and a rotating subset of
+    the others.  `info` = dict(key, tree, prep, as_bool)."""
+    be = BE_CODE[be_name]
+    rng = random.Random("famprobe/%s/%d/%d/%d" % (roots, seed, w, be))
+    var = seed + w // 16 + be
+    rej, acc = [], []
+    for key in family_keys(roots == "cmp"):
+        if (key[0] in ("eq", "neq")) != (roots == "cmp"):
+            continue
+        t, prep, as_bool = family_tree(key, var)
+        ok, why = compiles(t, w, be, 16, as_bool=as_bool)
+        (acc if ok else rej).append((ok, why, key, t, prep, as_bool))
+    if tier == "thorough" or everything:
+        rot = (seed + w + be) % 8
+        pick = rej + ([] if everything else [x for i, x in enumerate(acc) if i % 8 == rot])
+    else:
+        always = handle_fused if roots == "arith" else (lambda key: "Q" in key[1:])
+        group_of = (lambda key: key[1:3]) if roots == "arith" else (lambda key: key[0])
+        must, groups = [], {}
+        for x in rej:
+            if always(x[2]):
+                groups.setdefault(group_of(x[2]), []).append(x)
+        for g in sorted(groups):
+            must.append(groups[g][(seed + len(must)) % len(groups[g])])
+        rest = [x for x in rej if not always(x[2])]
+        rng.shuffle(rest)
+        pick = must + rest[:(3 if roots == "arith" else 2)]
+    out = []
+    for (ok, why, key, t, prep, as_bool) in pick:
+        out.append((ok, "family %s: %s" % (fam_name(key), why), ("bool(%s)" if as_bool else "%s") % cxx(t),
+                    probe_source(w, 16, 1, t, as_bool), dict(key=key, tree=t, prep=prep, as_bool=as_bool)))
+    return out
+
+
+def factors(t):
+    """(a, b) of a product-valued operand: a * b or shoup(a * b, q)"""
+    return (t[1], t[2]) if t[0] == "mul" else (t[1][1], t[1][2])
+
+
+def family_cmp_shape(key, tree, prep):
+    """how to drive a comparison family through the data patterns of the C08 runtime (`patterns`): the controlled leaf `t` and the
+    value `target` of it that makes the two sides equal at (cm,i) (the specification evaluates every store exactly, so the
+    patterns need not be perfect: they only have to reach equal / differ-in-one / equal-in-one stores most of the time).
+    Returns (root, tree, t, target, prep, None) as gen_expr.c08_shapes does."""
+    root, x, y = tree
+    kx, ky = key[1], key[2]
+    copy = lambda dst, src: "e.set_val(%d, [&](size_t cm, size_t i) -> T { return %s; });" % (handle(dst), ref(src))
+    if ky in "PQ":
+        return (root, tree, y, ref(x), prep, None)
+    if kx in "PQ":
+        return (root, tree, x, ref(y), prep, None)
+    for (side, other) in ((y, x), (x, y)):
+        if side[0] in ("add", "sub"):
+            a, b = side[1], side[2]
+            tgt = "xr::rsub<T>(cm,%s,%s)" % ((ref(other), ref(a)) if side[0] == "add" else (ref(a), ref(other)))
+            return (root, tree, b, tgt, prep, None)
+    (a, b), (a2, b2) = factors(x), factors(y)
+    pre = [copy(b2, b)] if b2 != b else []
+    return (root, tree, a2, ref(a), pre + prep, None)
+
+
+def has_meaning(t):
+    """the executable specification gives a meaning to every tree except the generic node shoup(x, q) with x not a product"""
+    if t[0] in "PQ":
+        return True
+    if t[0] == "shoup" and t[1][0] != "mul":
+        return False
+    return all(has_meaning(c) for c in t[1:])
+
+
+def family_exec_cases(t, prep):
+    """the statements that execute a tree the compiler turned out to accept: (tree, prep, dest, form, None) for every
+    aliasing pattern of the destination with the leaves (every distinct leaf incl. the quotient holders), a polynomial and
+    a handle that are not operands, construction of a polynomial / of a handle, and the copy-on-write detach"""
+    lv = []
+    for l in leaves(t):
+        if l not in lv:
+            lv.append(l)
+    free_p = [x for x in (P(3), P(5), P(2), P(4), P(0), P(1)) if x not in lv]
+    free_q = [x for x in (Q(1), Q(2), Q(0)) if x not in lv]
+    dests = [(d, 0) for d in lv]
+    if free_p:
+        dests.append((free_p[0], 0))
+    if free_q:
+        dests.append((free_q[0], 0))
+    dests += [(None, 2), (None, 3)]
+    qs = [l for l in lv if l[0] == "Q"]
+    dests.append(((qs[0] if qs else Q(0)), 4))
+    return [(t, prep, d, form, None) for (d, form) in dests]
 
 
 if __name__ == "__main__":
